@@ -270,7 +270,7 @@ ASSUME_TR = [
 TR_KEYS = ("w1", "r1", "w2", "r2", "wire", "doc1", "doc2")
 
 
-def tr(pid, tier, replay, own, modes, design, rule):
+def tr(pid, tier, replay, own, modes, design, rule, prepare=None):
     big = tier != Q
     jobs = []
     for mode, nq, nt, shards in modes:
@@ -283,6 +283,8 @@ def tr(pid, tier, replay, own, modes, design, rule):
         "result_keys": TR_KEYS, "nontrivial": lambda e: len(e.get("doc", {}).get("node_list", {}).get("nodes", [])) > 0,
         "rule": rule, "assumptions": ASSUME_TR,
     }
+    if prepare:
+        plan["prepare"] = prepare
     return simple.run_simple(pid, tier, plan, replay)
 
 
@@ -298,12 +300,34 @@ def c01(pid, tier, replay):
 
 
 def c02(pid, tier, replay):
+    def prepare(scratch, plan, vh):
+        # every labelled tree (root + 3 nodes quick, root + 4 thorough) in every stored order of its contains edges: exported by TLC
+        import re as _re, json as _json
+        from common import tlc as _tlc, Infra as _Infra
+        n = 3 if tier == Q else 4
+        out, rc, gen, dist = _tlc(scratch, "TrCDX", "TrCDX_export%d.cfg" % n, workers=1, timeout=1800)
+        if rc != 0 or "No error has been found" not in out:
+            raise _Infra("TLC could not enumerate the trees:\n" + out[-2000:])
+        evs = [_json.loads(_json.loads(m.group(1)))[0] for m in _re.finditer(r'<<"SCRIPT", ("(?:[^"\\]|\\.)*")>>', out)]
+        if not evs:
+            raise _Infra("TLC exported no trees")
+        shards = 1 if tier == Q else 8
+        for k in range(shards):
+            dest = scratch.path("trees-%d.ndjson" % k)
+            with open(dest, "w") as f:
+                for ev in evs[k::shards]:
+                    f.write(_json.dumps(ev) + "\n")
+            plan["jobs"].append({"cmd": ["tr-run", "--mode", "trees", "--scripts", dest, "--seed", str(seed() * 100 + k)], "label": "tlc-trees-%d" % k})
+        plan["extra_coverage"] = {"tlc_exported_tree_orders": len(evs), "tree_nodes": n + 1, "exhaustive_trees_and_orders": True}
+
     return tr(pid, tier, replay, r"^(rt\.cdx\..*|total\.cdx1[45]\..*)$", [("cdx", 120, 6000, 8)],
               [("TrCDX", "TrCDX_quick.cfg" if tier == Q else "TrCDX_thorough.cfg", 3000)],
               "seeded single-rooted containment trees of 1-6 nodes (chains of maximal depth, random trees, flat), contains "
               "edges stored in random order and random grouping of targets, nodes in random order; CycloneDX-expressible "
               "attributes with probability 0.1/0.5/0.9, sweeps over component types, hash algorithms, reference types of the "
-              "spec version; serial, version, lifecycles; CycloneDX 1.4 and 1.5 alternately; indents 0/1/4/8")
+              "spec version; serial, version, lifecycles; CycloneDX 1.4 and 1.5 alternately; indents 0/1/4/8; plus, exported "
+              "by TLC from TrCDX.tla, EVERY labelled tree on root + 3 (quick) / root + 4 (thorough) nodes in EVERY stored "
+              "order of its contains edges (96 / 3000 documents), one edge per pair or consecutive targets grouped", prepare=prepare)
 
 
 def c03(pid, tier, replay):
